@@ -81,9 +81,22 @@ pub enum Req {
     /// the OPT (fine), `opts` OPT records (RFC 6891 §6.1.1: more than one MUST be answered FORMERR)
     QueryExtra { id: u16, name: String, extra_a: bool, opts: u8 },
     /// STATUS / NOTIFY / IQUERY / DSO / unassigned opcodes with an ordinary question
-    OtherOp { id: u16, opcode: u8, name: String, qtype: u16 },
+    OtherOp {
+        id: u16,
+        opcode: u8,
+        name: String,
+        qtype: u16,
+        #[serde(default)]
+        edns: Option<EdnsSpec>,
+    },
     /// RFC 2136 UPDATE: zone section + `adds` A records in the update section
-    Update { id: u16, zone: String, adds: u8 },
+    Update {
+        id: u16,
+        zone: String,
+        adds: u8,
+        #[serde(default)]
+        edns: Option<EdnsSpec>,
+    },
     /// the inner request with QR set
     AsResponse(Box<Req>),
     Short(#[serde(with = "crate::core::hexser")] Vec<u8>),
@@ -138,6 +151,15 @@ fn qname_pool() -> Vec<String> {
     v
 }
 
+/// EDNS for the non-QUERY opcodes: mostly absent, sometimes version 0, sometimes a version above 0
+fn other_edns() -> impl Strategy<Value = Option<EdnsSpec>> {
+    prop_oneof![
+        5 => Just(None),
+        2 => any::<bool>().prop_map(|do_bit| Some(EdnsSpec { version: 0, do_bit, payload: 1232 })),
+        3 => (prop_oneof![Just(1u8), Just(2), Just(255)], any::<bool>()).prop_map(|(version, do_bit)| Some(EdnsSpec { version, do_bit, payload: 1232 })),
+    ]
+}
+
 fn query() -> impl Strategy<Value = Req> {
     let edns = prop_oneof![
         4 => Just(None),
@@ -177,9 +199,9 @@ fn valid_req() -> impl Strategy<Value = Req> {
     prop_oneof![
         12 => query(),
         2 => (any::<u16>(), prop::sample::select(qname_pool()), any::<bool>(), 0u8..3).prop_map(|(id, name, extra_a, opts)| Req::QueryExtra { id, name, extra_a, opts }),
-        3 => (any::<u16>(), prop_oneof![Just(1u8), Just(2), Just(3), Just(4), Just(6), 7u8..16], prop::sample::select(qname_pool()), prop_oneof![Just(wl::T_TXT), Just(wl::T_SOA)])
-            .prop_map(|(id, opcode, name, qtype)| Req::OtherOp { id, opcode, name, qtype }),
-        2 => (any::<u16>(), prop::sample::select(ORIGINS.to_vec()), 0u8..3).prop_map(|(id, zone, adds)| Req::Update { id, zone: zone.to_string(), adds }),
+        3 => (any::<u16>(), prop_oneof![Just(1u8), Just(2), Just(3), Just(4), Just(6), 7u8..16], prop::sample::select(qname_pool()), prop_oneof![Just(wl::T_TXT), Just(wl::T_SOA)], other_edns())
+            .prop_map(|(id, opcode, name, qtype, edns)| Req::OtherOp { id, opcode, name, qtype, edns }),
+        2 => (any::<u16>(), prop::sample::select(ORIGINS.to_vec()), 0u8..3, other_edns()).prop_map(|(id, zone, adds, edns)| Req::Update { id, zone: zone.to_string(), adds, edns }),
     ]
 }
 
@@ -297,14 +319,17 @@ fn render(r: &Req) -> (Vec<u8>, bool) {
             // with two OPTs the oracle finds the framing-level defect itself; the rest is valid
             (v, true)
         }
-        Req::OtherOp { id, opcode, name, qtype } => {
-            let mut v = wl::header_bytes(*id, false, *opcode, 0, 0, [1, 0, 0, 0]);
+        Req::OtherOp { id, opcode, name, qtype, edns } => {
+            let mut v = wl::header_bytes(*id, false, *opcode, 0, 0, [1, 0, 0, edns.is_some() as u16]);
             wl::put_question(&mut v, &wl::parse_name_str(name), *qtype, 1);
+            if let Some(e) = edns {
+                wl::put_rr(&mut v, &wl::OutRr::opt(e.payload, 0, e.version, e.do_bit, vec![]));
+            }
             (v, true)
         }
-        Req::Update { id, zone, adds } => {
-            // RFC 2136 §2: ZOCOUNT=1 (zone, SOA, IN), PRCOUNT=0, UPCOUNT=adds, ADCOUNT=0
-            let mut v = wl::header_bytes(*id, false, 5, 0, 0, [1, 0, *adds as u16, 0]);
+        Req::Update { id, zone, adds, edns } => {
+            // RFC 2136 §2: ZOCOUNT=1 (zone, SOA, IN), PRCOUNT=0, UPCOUNT=adds, ADCOUNT=0 (+1 for an OPT)
+            let mut v = wl::header_bytes(*id, false, 5, 0, 0, [1, 0, *adds as u16, edns.is_some() as u16]);
             let z = wl::parse_name_str(zone);
             wl::put_question(&mut v, &z, wl::T_SOA, 1);
             for i in 0..*adds {
@@ -320,6 +345,9 @@ fn render(r: &Req) -> (Vec<u8>, bool) {
                         rdata: vec![192, 0, 2, i],
                     },
                 );
+            }
+            if let Some(e) = edns {
+                wl::put_rr(&mut v, &wl::OutRr::opt(e.payload, 0, e.version, e.do_bit, vec![]));
             }
             (v, true)
         }
@@ -385,9 +413,11 @@ fn kind_label(r: &Req) -> &'static str {
         Req::Query { .. } => "req/query",
         Req::QueryExtra { opts: 2, .. } => "req/query-two-opt",
         Req::QueryExtra { .. } => "req/query-extra-additional",
+        Req::OtherOp { edns: Some(e), .. } if e.version > 0 => "req/other-opcode-edns-version>0",
         Req::OtherOp { opcode: 2, .. } => "req/status",
         Req::OtherOp { opcode: 4, .. } => "req/notify",
         Req::OtherOp { .. } => "req/unknown-opcode",
+        Req::Update { edns: Some(e), .. } if e.version > 0 => "req/update-edns-version>0",
         Req::Update { .. } => "req/update",
         Req::AsResponse(_) => "req/qr=1",
         Req::Short(_) => "req/shorter-than-header",
